@@ -28,6 +28,8 @@ def configs(tier):
     # added afterwards must be served like the others
     many = [l for l in ls if len(l["regs"]) >= 2]
     late = [dict(l, late=(i % len(l["regs"]))) for i, l in enumerate(many[::7])]
+    late += [dict(l, late=(i % len(l["regs"])), early_elab=True) for i, l in enumerate(many[3::11])]
+    late += [dict(l, swap=True) for l in many[5::13]]
     return ls + twice + late
 
 
